@@ -28,7 +28,7 @@ SeqsFrom(S, lo, hi) == UNION {[1..k -> S] : k \in lo..hi}
 
 A(name, n, t, i, seq, before, after, key, rev) ==
     [name |-> name, n |-> n, t |-> t, i |-> i, seq |-> seq, before |-> before, after |-> after,
-     key |-> key, rev |-> rev, via |-> 0]
+     key |-> key, rev |-> rev, via |-> 0, seq2 |-> <<>>, seq3 |-> <<>>]
 
 IdPool == {IdOf[t] : t \in Task} \cup {99}
 
